@@ -671,13 +671,12 @@ fn encode_genotype_str(genotype: &str) -> io::Result<Vec<i8>> {
     }
 
     fn encode(s: &str, phasing: &str) -> io::Result<i8> {
-        if s == MISSING_ALLELE {
-            return Ok(0);
-        }
-
-        let j: i8 = s
-            .parse()
-            .map_err(|e| io::Error::new(io::ErrorKind::InvalidInput, e))?;
+        let j: i8 = if s == MISSING_ALLELE {
+            -1
+        } else {
+            s.parse()
+                .map_err(|e| io::Error::new(io::ErrorKind::InvalidInput, e))?
+        };
         let is_phased = phasing == "|";
 
         let mut i = (j + 1) << 1;
@@ -711,7 +710,7 @@ fn encode_genotype(genotype: &dyn Genotype) -> io::Result<Vec<i8>> {
         let i = if let Some(position) = position {
             i8::try_from(position).map_err(|e| io::Error::new(io::ErrorKind::InvalidData, e))?
         } else {
-            return Ok(0);
+            -1
         };
 
         let mut n = (i + 1) << 1;
